@@ -157,7 +157,13 @@ func smallStr(t *rapid.T, label string, minLen int) []byte {
 	return b
 }
 
-// Options draws a sorted, duplicate-free pair list of 0..max pairs.
+// wellKnown: option keys the accessors of RouterAddress / RouterInfo interpret,
+// with values from their edge sets (empty, one character, malformed, boundary).
+var wellKnownKeys = []string{"host", "port", "caps", "s", "i", "v", "ih0", "iexp0", "itag0", "ih2", "router.version", "netId", "caps"}
+var wellKnownVals = []string{"", "1.2.3.4", "::1", "::ffff:1.2.3.4", "example.i2p", "80", "0", "65536", "+80", "6", "4", "B6", "NRf", "0.9.64", "0.9", "a.b.c", "2", "x"}
+
+// Options draws a sorted, duplicate-free pair list of 0..max pairs; about half
+// of the non-empty lists use the well-known option vocabulary.
 func Options(t *rapid.T, label string, max int) Pairs {
 	n := 0
 	if max > 0 {
@@ -165,13 +171,24 @@ func Options(t *rapid.T, label string, max int) Pairs {
 	}
 	seen := map[string]bool{}
 	var ps []model.Pair
+	vocab := n > 0 && rapid.Bool().Draw(t, label+"-vocab")
 	for i := 0; i < n; i++ {
-		k := smallStr(t, label+"-k", 0)
+		var k, v []byte
+		if vocab && rapid.IntRange(0, 3).Draw(t, label+"-wk") > 0 {
+			k = []byte(rapid.SampledFrom(wellKnownKeys).Draw(t, label+"-wkk"))
+			v = []byte(rapid.SampledFrom(wellKnownVals).Draw(t, label+"-wkv"))
+			if rapid.IntRange(0, 5).Draw(t, label+"-wklong") == 0 {
+				v = model.Fill(rapid.SampledFrom([]int{15, 16, 17, 31, 32, 33, 255}).Draw(t, label+"-wklen"), 9)
+			}
+		} else {
+			k = smallStr(t, label+"-k", 0)
+			v = smallStr(t, label+"-v", 0)
+		}
 		if seen[string(k)] {
 			continue
 		}
 		seen[string(k)] = true
-		ps = append(ps, model.Pair{K: k, V: smallStr(t, label+"-v", 0)})
+		ps = append(ps, model.Pair{K: k, V: v})
 	}
 	m := map[string]string{}
 	for _, p := range ps {
